@@ -86,6 +86,14 @@ if len(sys.argv) > 3 and sys.argv[3] == "content":
                "  position; two different keys whose nibble / bit expansions are related (one is the other shifted, reversed, or padded);\n"
                "  a key equal to a hash; values equal to the configured default or to b''; identical values under many keys; a node whose\n"
                "  encoding is exactly 31, 32 or 33 bytes; content that makes two different sub-tries byte-identical.\n")
+if len(sys.argv) > 3 and sys.argv[3] == "perf":
+    VARIANT = ("* Present each change as a *performance optimisation* a maintainer would be glad to merge: skipping work that looks\n"
+               "  redundant (a write of a node that is 'already stored', a re-encoding, a re-hash, a second validation, a second lookup,\n"
+               "  a copy), caching derived data (decoded nodes, encoded keys, hashes, lengths, the result of the previous call), an early\n"
+               "  exit when 'nothing changes', batching or deferring deletes, iterating a container once instead of twice, replacing a\n"
+               "  recursive call by a loop. The shortcut must be correct in the common case and wrong only in a specific situation\n"
+               "  (an aliased node, a pruned entry, a value equal to an old one, a key that ends inside a node, a second object over the\n"
+               "  same database, an aborted block, a re-used object).\n")
 prop = [json.loads(l) for l in open(os.path.join(HERE, "properties.jsonl")) if json.loads(l)["id"] == pid][0]
 wt = "/tmp/wt/%s%s" % (pid, suffix)
 os.makedirs("/tmp/wt", exist_ok=True)
